@@ -569,7 +569,8 @@ _EVENT_MAKERS.update({'construct': conv.ev_construct, 'created': conv.ev_created
 NAMES_CFGS = {'quick': 'MC_Grammar_names_q.cfg', 'thorough': 'MC_Grammar_names_t.cfg'}
 C15_CLAUSES = ({'must-accept', 'must-reject', 'image', 'foreign-exception', 'serialised-form', 'not-interchange', 'serialise-failed',
                 'reparse-failed', 'reparse-differs', 'children-keys', 'missing-fields', 'extra-fields', 'duplicate-node',
-                'length-bounds', 'node-kind', 'build-fails-documented', 'method-variant-differs'})
+                'length-bounds', 'node-kind', 'build-fails-documented', 'method-variant-differs',
+                'reparse-shadowed-by-earlier-union-member'})
 
 
 def _accepted_only(T, v):
